@@ -171,6 +171,52 @@ def global_scenario(e3):
     check.discharge_many(e3.res, specs, 120)
 
 
+def global_late_scenario(e3):
+    """s_global_late: expected dispatch sequence rec1, rec2, rec2, global"""
+    name = "c01_global_installed_late"
+    eng, leaves, ids, noop = run_scenario(e3, name, ["s_global_late"])
+    sc = rf_constraints(eng)
+    base = list(sc.cons)
+    done = z3.Or(*[l.taken() for l in leaves if l.status == "done"])
+    ds = dispatches(leaves)
+    boxes = [e.obj for e in eng.events if e.label == "init:Box"]
+    wrong, after_end = scope_props(eng, leaves, ids, noop)
+    # order of the enabled dispatches = creation order; position k = number of enabled dispatches before it
+    conds = []
+    for k, (e, pay) in enumerate(ds):
+        pos = z3.IntVal(0)
+        for e2, _ in ds[:k]:
+            pos = pos + z3.If(e2.guard, 1, 0)
+        rec = pay["rec"]
+        is_global = z3.Or(*[rec == b for b in boxes]) if boxes else z3.BoolVal(False)
+        exp = z3.If(pos == 0, rec == ids[1], z3.If(pos <= 2, rec == ids[2], is_global))
+        conds.append(z3.And(e.guard, z3.Not(exp)))
+    nemit = z3.IntVal(0)
+    for e, _ in ds:
+        nemit = nemit + z3.If(e.guard, 1, 0)
+    bounds = "with_local_recorder(rec1){emit}; guard = set_default_local_recorder(rec2); emit; set_global_recorder; emit; drop(guard); emit"
+    def on_model(ob, model, pname="fallthrough_local_global_noop"):
+        import replay_e3
+        vals = {f"nd{i}": (1 if z3.is_true(model.eval(b, model_completion=True)) else 0) for i, b in enumerate(eng.nd)}
+        ob.sample = {"scenario": name, "nd": vals}
+        os.makedirs(os.path.join(REPLAYS, "C01"), exist_ok=True)
+        pp = os.path.join(REPLAYS, "C01", f"{name}.{pname}.plan")
+        open(pp, "w").write(replay_e3.plan_text(name, pname, {1: "s_global_late"}, [], vals))
+        status, out = replay_e3.run("c01", pp)
+        ob.detail += f" | native replay (c01): {status}"
+        ob.sample["native_replay"] = {"status": status, "output": out[-400:]}
+        ob.replay = pp
+        ob.reproduced = status == "reproduced"
+        if not ob.reproduced:
+            ob.status = "error"
+    specs = [dict(name=f"{name}:witness", desc="the scenario runs to completion", bounds=bounds, cons=base + [done], expect_unsat=False),
+             dict(name=f"{name}:fallthrough_local_global_noop", on_model=on_model, desc="precedence local > global > no-op violated: an emission before the installation does not go to the no-op recorder, one after it not to the global recorder, or one inside the local scope not to the local recorder",
+                  bounds=bounds, cons=base + [done, z3.Or(*conds)], expect_unsat=True),
+             dict(name=f"{name}:exactly_once", desc="an emission is dispatched zero or several times", bounds=bounds, cons=base + [done, nemit != 4], expect_unsat=True),
+             dict(name=f"{name}:no_dispatch_after_scope_end", desc="dispatch to the local recorder after its scope", bounds=bounds, cons=base + [done, after_end], expect_unsat=True)]
+    check.discharge_many(e3.res, specs, 120)
+
+
 def macro_forms(e3):
     """Every argument form of counter!/gauge!/histogram!/describe_*! (one call site per function in /verif/mirharness, expected delivery in
     mirharness::FORMS), and call sites with a computed name reached twice with different names. The recorder double must receive, per
@@ -317,6 +363,10 @@ def run(tier, seed, t0):
         global_scenario(e3)
     except _e3.ENC_ERRORS as ex:
         e3.error("c01", "MIR->SMT encoding of metrics::recorder scoping", ex)
+    try:
+        global_late_scenario(e3)
+    except _e3.ENC_ERRORS as ex:
+        e3.error("c01_global_installed_late", "MIR->SMT encoding of metrics::recorder scoping", ex)
     try:
         macro_forms(e3)
     except _e3.ENC_ERRORS as ex:
